@@ -22,6 +22,7 @@ PATTERNS = {
     "bad-paths": {"composeinfo.json": "ci_paths_str", "images.json": "images_cell_dict", "rpms.json": "rpms_cell_list"},
     # a zero-length file under the current name is an undecodable file, not a missing one
     "empty-current": {"composeinfo.json": "info", "images.json": "zero", "image-manifest.json": "images2", "rpms.json": "zero", "rpm-manifest.json": "rpms2"},
+    "not-utf8": {"composeinfo.json": "info", "images.json": "latin1", "rpms.json": "rpms"},
     "empty": {},
 }
 
@@ -43,7 +44,10 @@ def _contents():
     rng = core_rng.Rng(5)
     from suites.common import reflect
     R = reflect()
-    ci = DC.build(DC.gen_ci(rng, R)["desc"]).dumps()
+    desc = DC.gen_ci(rng, R)["desc"]
+    desc[0]["label"], desc[0]["final"] = "RC-1.0", True
+    shared = dict(desc[0], label=None, final=False)          # the manifests of the same compose carry no label
+    ci = DC.build(desc).dumps()
     ci2 = DC.build(DC.gen_ci(rng, R)["desc"]).dumps()
     out = {"info": ci}
 
@@ -52,14 +56,14 @@ def _contents():
         pool = [OI.gen_image(r, R, small=False, idx=j) for j in range(2)]
         for j, img in enumerate(pool):
             img["disc_number"] = j + 1
-        im, objs, _ = OI.build({"version": None, "compose": OI.valid_compose(r, R), "pool": pool})
+        im, objs, _ = OI.build({"version": None, "compose": (shared if seed == 1 else OI.valid_compose(r, R)), "pool": pool})
         im.add("Server", "x86_64", objs[0]); im.add("Client", "x86_64", objs[1])
         return im.dumps()
 
     def plain(kind, seed):
         r = core_rng.Rng(seed)
         o = DM._new(kind)
-        for k, v in OI.valid_compose(r, R).items():
+        for k, v in (shared if seed in (3, 6) else OI.valid_compose(r, R)).items():
             setattr(o.compose, k, v)
         for _ in range(4):
             try:
@@ -74,6 +78,7 @@ def _contents():
     out["garbage"] = '{"header": {"version": "1.2", "type": "productmd.images"}, "payload": {"compose": {}, "images": {}}}'
     out["notjson"] = "this is not json {"
     out["zero"] = ""
+    out["latin1"] = out["images"].replace('"Server"', '"Serv\udce9r"', 1)      # written back as the raw byte 0xE9
     out["listdoc"] = '{"header": {"version": "1.2", "type": "productmd.rpms"}, "payload": []}'
     d = json.loads(ci)
     d["payload"]["variants"] = list(d["payload"]["variants"])
@@ -115,7 +120,7 @@ def impl(case):
             md = os.path.join(root, sub[layout], "metadata")
             os.makedirs(md, exist_ok=True)
             for fn, key in PATTERNS[pat].items():
-                with open(os.path.join(md, fn), "w") as f:
+                with open(os.path.join(md, fn), "w", encoding="utf-8", errors="surrogateescape") as f:
                     f.write(contents[key])
         path = root + ("/" if case["slash"] else "")
         existing = []
